@@ -9,6 +9,11 @@ DOWNGRADE = 'tokio::sync::RwLockWriteGuard::downgrade'
 STATE_APPLY = ('server::state::StateKind::apply', 'server::state::State::apply')
 
 
+def in_crate(d, prefix='server::'):
+    """def path belongs to the crate/module prefix — also for trait impls, which are named `<Self as Trait>::m`"""
+    return d.startswith(prefix) or d.startswith('<' + prefix)
+
+
 # ------------------------------------------------------------------ expression predicates
 def expr_has_call(e, pat):
     for x in walk(e):
@@ -172,7 +177,7 @@ def callers_of(ctx, pat, crate_prefix='server::'):
         if name_matches(callee, pat):
             cands |= cs
     for d in sorted(cands):
-        if crate_prefix and not (d.startswith(crate_prefix) or d.startswith('iggy_server::')):
+        if crate_prefix and not (in_crate(d, crate_prefix) or d.startswith('iggy_server::')):
             continue
         b = ctx.body(d)
         for c in b.calls:
@@ -186,7 +191,7 @@ def field_writers(ctx, adt, field, crate_prefix='server::'):
     out = []
     needle = '"%s","%s"' % (adt, field)
     for d in sorted(ctx.facts.body_defs()):
-        if crate_prefix and not d.startswith(crate_prefix):
+        if crate_prefix and not in_crate(d, crate_prefix):
             continue
         raw = ctx.facts.raw_body(d)
         for bi, bl in enumerate(raw['blocks']):
